@@ -26,6 +26,9 @@ type Program struct {
 	TPkgs map[string]*types.Package
 	// contract comment lines found in the roots' files (only files named verif_contracts*.go)
 	ContractFiles map[string][]string // import path -> file paths
+	// packages whose scope is completely known: the roots (type-checked from source) and their direct imports (whole
+	// export data read). Packages reached only indirectly are stubs holding just the objects some export data mentions.
+	Complete map[string]bool
 }
 
 func loadProgram(repo string, patterns []string, overlay map[string][]byte) (*Program, error) {
@@ -63,8 +66,13 @@ func loadProgram(repo string, patterns []string, overlay map[string][]byte) (*Pr
 		ByTyp: map[*types.Package]*ssa.Package{}, TPkgs: map[string]*types.Package{}, ContractFiles: map[string][]string{}}
 
 	rootTypes := map[*types.Package]*packages.Package{}
+	P.Complete = map[string]bool{}
 	for _, p := range pkgs {
 		rootTypes[p.Types] = p
+		P.Complete[p.Types.Path()] = true
+		for _, imp := range p.Types.Imports() {
+			P.Complete[imp.Path()] = true
+		}
 	}
 	// dependencies: types only
 	seen := map[*types.Package]bool{}
